@@ -140,7 +140,7 @@ open GV.Props.C09
 /-- first death after step 9 of the reorganising block (output files rewritten, no kernel file
 touched yet) -/
 def d9 : Durable := crashAfter tgtR (consistent old8) blockSteps 9
-def k9 : KFiles := kOfIds (old8.map (·.id))
+def k9 : KFiles := kOfPath (fun _ => 1) old8
 
 /-- **A restart killed inside its fallback, then restarted: the start after that does not open.**
 A single restart from `d9` opens on the fork point b5 and can be killed anywhere without the NEXT
@@ -149,31 +149,31 @@ kernel sync of its first fallback step, before the last one), the following rest
 — leaves a kernel data file whose first element is not a kernel. -/
 theorem recovery_killed_then_restart_bricks :
     recover bc tblR d9 = .ok 5 ∧
-    (∀ j ∈ List.range 26, nextStartOpens (recCrashAfter bc tblR d9 j) (kRestartKilled bc tblR d9 k9 j) = true) ∧
+    (∀ j ∈ List.range 26, nextStartOpens (recCrashAfter bc tblR d9 j) (kRestartKilled (fun _ => 1) bc tblR d9 k9 j) = true) ∧
     (∀ j ∈ [12, 13, 14, 15, 16, 17],
       nextStartOpens (recCrashAfter bc tblR d9 j)
-        (kRestartKilled bc tblR (recCrashAfter bc tblR d9 j) (kRestartKilled bc tblR d9 k9 j) 100) = false) ∧
+        (kRestartKilled (fun _ => 1) bc tblR (recCrashAfter bc tblR d9 j) (kRestartKilled (fun _ => 1) bc tblR d9 k9 j) 100) = false) ∧
     (∀ j ∈ [0, 1, 2, 3, 4, 5, 6, 7, 8, 9, 10, 11, 18, 19, 20, 21, 22, 23, 24],
       nextStartOpens (recCrashAfter bc tblR d9 j)
-        (kRestartKilled bc tblR (recCrashAfter bc tblR d9 j) (kRestartKilled bc tblR d9 k9 j) 100) = true) := by
+        (kRestartKilled (fun _ => 1) bc tblR (recCrashAfter bc tblR d9 j) (kRestartKilled (fun _ => 1) bc tblR d9 k9 j) 100) = true) := by
   decide
 
 /-- first death after step 15 (kernel hash and size file rewritten for the new branch, kernel data
 file truncated to the fork point, new kernels not yet appended) -/
 def d15 : Durable := crashAfter tgtR (consistent old8) blockSteps 15
-def k15 : KFiles := [KStep.sizeTrunc, .sizeApp, .dataTrunc].foldl (applyKStep tgtR) k9
+def k15 : KFiles := [KStep.sizeTrunc, .sizeApp, .dataTrunc].foldl (applyKStep (fun _ => 1) tgtR) k9
 
 /-- **The kernel data window: the start after the recovering start fails.** The restart from `d15`
 opens on b5; run to its end (18 writes) it leaves a zero-filled data file, killed after 7 or more
 writes an empty one: in both cases the next start fails in `TxHashSet::open`. -/
 theorem kernel_data_window_next_start_fails :
     recover bc tblR d15 = .ok 5 ∧ (recoverS bc tblR d15).1.length = 18 ∧
-    kRestartKilled bc tblR d15 k15 18 =
+    kRestartKilled (fun _ => 1) bc tblR d15 k15 18 =
       { size := [some 0, some 1, some 2, some 3, some 4, some 5], data := [none, none, none, none, none, none] } ∧
     (∀ j ∈ [7, 8, 9, 10, 11, 12, 13, 14, 15, 16, 17, 18],
-      nextStartOpens (recCrashAfter bc tblR d15 j) (kRestartKilled bc tblR d15 k15 j) = false) ∧
+      nextStartOpens (recCrashAfter bc tblR d15 j) (kRestartKilled (fun _ => 1) bc tblR d15 k15 j) = false) ∧
     (∀ j ∈ [0, 1, 2, 3, 4, 5, 6],
-      nextStartOpens (recCrashAfter bc tblR d15 j) (kRestartKilled bc tblR d15 k15 j) = true) := by
+      nextStartOpens (recCrashAfter bc tblR d15 j) (kRestartKilled (fun _ => 1) bc tblR d15 k15 j) = true) := by
   decide
 
 end GV.Props.C09Kernel
